@@ -24,6 +24,7 @@
   several trees of different keys (the tokens registered with `tok` are shared by all of them):
     vk <key> <msg> <sig> <0|1>                  keyed signature table
     view <vname> <key> <cap|default>            fresh TokenTree(public_key=key); genesis = hash(key) (send `h`)
+    viewobj <vname> <pubbin> <privbin|none> <cap|default> -> ok <genesis>   the constructor given a key OBJECT
     offer <vname> <name>  -> <kind> <state>     vverify / vpath <vname> <name> <depth|default>
     vser <vname> -> <hex>                       vunser <vname> <hex> -> true|false|error <state>
 -/
@@ -125,6 +126,10 @@ def step (s : St) (toks : List String) : St × String :=
     match ofHex? k, (if c == "default" then some defaultCap else c.toNat?) with
     | some k, some c => (setV vn (View.fresh k c), "ok")
     | _, _ => bad
+  | ["viewobj", vn, pb, sec, c] =>    -- TokenTree(public_key=<key object>), secret = its private serialisation or none
+    match ofHex? pb, content? sec, (if c == "default" then some defaultCap else c.toNat?) with
+    | some pb, some sec, some c => (setV vn (View.open ⟨pb, sec⟩ c), "ok " ++ toHex ((View.open ⟨pb, sec⟩ c).genesis K))
+    | _, _, _ => bad
   | ["offer", vn, n] =>
     match findV vn, find n with
     | some v, some t =>
